@@ -142,6 +142,38 @@ CHECKS = {
         "1e-12 monitored); raw vsignatures cases exact. Full vibrational space only: the truncated generators (vibgen_approx) raise "
         "AttributeError (numpy.int) on the pinned NumPy and are excluded by the property.",
    design="7/C10", technique="Coq proof (induction over mode lists, ring over an abstract *-ring with the FC table as a Section variable) + in-Coq correspondence (exact state lists, 1e-12 matrix elements)"),
+ "C15": dict(
+   text="Proved in Coq (closed) in an EFFECT model of tensor construction (9 kinds incl. the raising ones), rate matrix, propagate of 13 "
+        "density-matrix propagator kinds (with Nref and order arguments), state-vector / population / hierarchy propagate and "
+        "EvolutionSuperOperator.calculate (11 kinds): for every interpretation of the numerical kernels (uninterpreted symbols "
+        "applied to the fields the code reads) satisfying the cut-off recover law, and for EVERY history of calls on shared objects, "
+        "all input fields keep their values and each call's result equals its result on the untouched objects; results depend on "
+        "input fields and arguments only; symbolic execution proved sound (reflection: two finite checks over all call shapes). "
+        "Refutation witnesses for the pinned tree: hierarchy ADO carry-over, sticky Nref, exception path of get_RelaxationTensor - all "
+        "three repaired by fix: commits. Validated only: that the real code reads and writes exactly the modelled fields (deep "
+        "snapshots per call, bit-equality classes of results compared in Coq, bit-equal comparison with freshly built objects); the "
+        "recover law on floats (bit exact for power-of-two cut-offs, one rounding otherwise). Known finding (not repaired): "
+        "get_RelaxationTensor('mR') leaves sbi.CC transformed.",
+   note=TB + "All C15 theorems closed under the global context. The model is data flow only; kernels are uninterpreted. Tie: random "
+        "histories (5-12 API calls on one shared dimer/trimer world) with the call list, the changed-field list per call and the "
+        "equality class of each result compared exactly with Model.C15.trace (repaired and pinned variants); any unmodelled changed "
+        "attribute is a violation. Non-equilibrium Foerster, field-driven propagation and get_kernel are not exercised.",
+   design="7/C15", technique="Coq proof (effect model, symbolic execution proved sound + reflection over all call shapes, induction over histories) + differential deep-snapshot correspondence"),
+ "C18": dict(
+   text="Proved in Coq (closed): packing data with an axis and extracting it is the identity for (N,) and (N,M>=2) arrays of every "
+        "size; export/import through dat/txt/npy/npz/mat with or without axis is the identity on every array the formats can "
+        "represent and preserves the values in storage order for every shape (reader conventions - loadtxt squeezes, loadmat returns "
+        ">= 2-D - modelled as they are, shape-only refutations for (N,1) and 1-D .mat); a loaded parcel reads, in ANY state of the basis "
+        "manager (any nesting, any group of basis changes; the C04 machine extended with save/load), exactly like the saved object "
+        "would there; save and load outside every context return the stored data; refutations for the pinned npz-with-axis writer, "
+        "single-point text files and complex text import (three fix: commits) and for objects saved inside a basis context (known "
+        "finding, not repaired). Validated only: dill and the numpy/scipy writers/readers are oracles (value identity and shape "
+        "conventions compared exactly on every case); the units clause (storage is internal; raw-content monitor).",
+   note=TB + "All C18 theorems closed under the global context. Tie: the exhaustive matrix {dat,txt,npy,npz,mat} x {real,complex} x "
+        "{axis,no axis} x 7 shapes through DataSaveable.save_data/load_data and MatrixData compared exactly in Coq; random "
+        "new/read/enter/leave/save/load programs on real operators with exact signed-permutation contexts compared exactly with the "
+        "model; 21 Saveable classes x {none, units, basis} context at save x at load monitored (raw content, observables 1e-12).",
+   design="7/C18", technique="Coq proof (list-level model of pack/extract/format dispatch; C04 state machine extended with save/load) + exhaustive finite matrix and random programs compared exactly in Coq"),
 }
 NOT_YET = {}
 def main():
